@@ -15,8 +15,8 @@ ID = "C18"
 BUDGET = {"quick": 100, "thorough": 600}
 
 
-def make_prog(n, es, with_param: bool) -> GProg:
-    p = prog_of(dict(n=n, es=es, res=("tm" * n)[:n], mc=2))
+def make_prog(n, es, with_param: bool, none_node=None) -> GProg:
+    p = prog_of(dict(n=n, es=es, res=("tm" * n)[:n], mc=2, retnone=[none_node] if none_node is not None else []))
     if not with_param:
         return p
     nodes = list(p.nodes)
@@ -24,6 +24,10 @@ def make_prog(n, es, with_param: bool) -> GProg:
         if not nodes[i].edges:
             nodes[i] = GNode(**{**nodes[i].__dict__, "edges": (Edge(-1, "pos"),)})
     return GProg(nodes=tuple(nodes), mc=2, params=(("x", NODEFAULT),))
+
+
+def tok_or_none(p, ids, i, serial):
+    return None if p.nodes[i].retnone else Tok(ids[i], serial)
 
 
 def cases(tier: str):
@@ -40,6 +44,14 @@ def cases(tier: str):
                         for other_input in ((False, True) if with_param else (False,)):
                             yield dict(n=n, es=es, with_param=with_param, caching=[ck, ct], restart=[rk, rt], other_input=other_input,
                                        chain=(n <= 3 and not other_input and rk in ("same", "deps")))
+                            if n <= 3 and not other_input and rk in ("same", "whole"):
+                                for nn in range(n):  # a node whose (legal) result is None
+                                    yield dict(n=n, es=es, with_param=with_param, caching=[ck, ct], restart=[rk, rt], other_input=False, none_node=nn)
+                if n <= 3:
+                    # one DAG instance, one path: cache, restart, cache again (other argument / other selection), restart again
+                    for ck, ct in cachings[: n + 1]:
+                        for ck2, ct2 in cachings:
+                            yield dict(n=n, es=es, with_param=with_param, special="rewrite", caching=[ck, ct], caching2=[ck2, ct2])
     # cache_deps_of naming two nodes; cache_deps_of with a debug node downstream and RUN_DEBUG_NODES on
     for n in (2, 3, 4):
         for es in shapes(n):
@@ -63,6 +75,53 @@ def sel_of(p, kind, t):
         s, _ = p.closure(None, None, [t])
         return s
     return set(range(len(p.nodes)))
+
+
+def run_rewrite(acc, c):
+    """One DAG instance and one path: caching run #1, restart, caching run #2 that rewrites the file, restart again.
+    The second restart must start from what the file holds NOW."""
+    p = make_prog(c["n"], [tuple(e) for e in c["es"]], c["with_param"])
+    ids = p.ids()
+    src = p.source()
+    acc.cases += 1
+    tmp = os.environ.get("VERIF_TMP", "/tmp")
+    path = os.path.join(tmp, "cache_rw.pkl")
+    if os.path.exists(path):
+        os.remove(path)
+    d, _ = build_gprog(p)
+    a1 = ("c1",) if c["with_param"] else ()
+    a2 = ("c2",) if c["with_param"] else ()
+    for rnd, ((ck, ct), args) in enumerate(((c["caching"], a1), (c["caching2"], a2))):
+        res = H.run_controlled(lambda: d.executor(**kw_of(ids, ck, ct, path, "w"))(*args))
+        acc.evaluations += 1
+        if res.outcome != "return":
+            acc.violation(V("caching_run_failed", f"round {rnd}: caching run {[ck, ct]} raised {res.exc!r}"), c, (), res.trace, src)
+            return
+        serial = next((e[2] for e in res.trace if e[0] == "enter"), None)
+        content = pickle.load(open(path, "rb"))  # noqa: S301
+        cached = {i for i in range(len(ids)) if ids[i] in content}
+        rk, rt = (ck, ct)
+        res2 = H.run_controlled(lambda: d.executor(**kw_of(ids, rk, rt, path, "r"))(*args))
+        acc.evaluations += 1
+        sel2 = sel_of(p, rk, rt)
+        v2 = View(p, res2, sel2, {i: serial for i in cached}, False, args)
+        if res2.outcome != "return":
+            acc.violation(V("restart_failed", f"round {rnd}: restart from the rewritten file raised {res2.exc!r}"), c, (), res2.trace, src)
+            return
+        for m in (mon_c02, mon_c03):
+            for viol in m(v2):
+                acc.violation(dict(viol, kind="stale_cache_" + viol["kind"], msg=f"round {rnd} (same instance, same path): " + viol["msg"]), c, (), res2.trace, src)
+        val = res2.value
+        for i in range(len(ids)):
+            exp = Tok(ids[i], serial) if i in cached else (Tok(ids[i], v2.serial) if ids[i] in v2.enters else None)
+            if not isinstance(val, tuple) or (val[i] != exp and not (val[i] is None and exp is None)):
+                acc.violation(V("stale_cache_value", f"round {rnd}: restart returned {val!r}; element {i} should be {exp!r} (what the file holds now)"), c, (), res2.trace, src)
+                break
+    acc.mark_nontrivial(repr(c))
+    acc.states += 4
+    acc.transitions += 4
+    if os.path.exists(path):
+        os.remove(path)
 
 
 def run_special(acc, c):
@@ -140,9 +199,11 @@ def run_special(acc, c):
 
 
 def run_one(acc, c):
+    if c.get("special") == "rewrite":
+        return run_rewrite(acc, c)
     if c.get("special"):
         return run_special(acc, c)
-    p = make_prog(c["n"], [tuple(e) for e in c["es"]], c["with_param"])
+    p = make_prog(c["n"], [tuple(e) for e in c["es"]], c["with_param"], c.get("none_node"))
     ids = p.ids()
     src = p.source()
     acc.cases += 1
@@ -178,7 +239,7 @@ def run_one(acc, c):
         return
     want_in = set(sel1) - ({ct} if ck == "deps" else set())
     for i in want_in:
-        if content.get(ids[i]) != Tok(ids[i], serial1):
+        if ids[i] not in content or content.get(ids[i]) != tok_or_none(p, ids, i, serial1):
             acc.violation(V("cache_file_missing_result", f"cache file of {c['caching']} lacks the result of {ids[i]} (has {sorted(k for k in content if k in ids)})"), c, (), res1.trace, src)
     if ck == "deps" and ids[ct] in content:
         acc.violation(V("cache_file_has_target", f"cache_deps_of=[{ids[ct]}] stored {ids[ct]}'s own result"), c, (), res1.trace, src)
@@ -201,9 +262,9 @@ def run_one(acc, c):
     val = res2.value
     for i in range(len(ids)):
         if i in cached:
-            exp = Tok(ids[i], serial1)
+            exp = tok_or_none(p, ids, i, serial1)
         elif ids[i] in v2.enters:
-            exp = Tok(ids[i], v2.serial)
+            exp = tok_or_none(p, ids, i, v2.serial)
         else:
             exp = None
         if not (isinstance(val, tuple) and len(val) == len(ids)) or val[i] != exp and not (val[i] is None and exp is None):
